@@ -12,7 +12,7 @@ def run_one(path):
     out = {}
     try:
         shutil.copytree("/repo/src", os.path.join(tmp, "src"), ignore=shutil.ignore_patterns("__pycache__", "tests"))
-        r = subprocess.run(["patch", "-p1", "-s", "-f", "-d", tmp, "-i", path], capture_output=True, text=True)
+        r = subprocess.run(["patch", "-p1", "-s", "-f", "-d", tmp, "-i", os.path.abspath(path)], capture_output=True, text=True)
         if r.returncode != 0:
             return path, {"error": "patch does not apply"}
         for p in ALL:
